@@ -26,18 +26,31 @@ func MustParseDate(s string) Date {
 func ParseDate(s string) (Date, error) {
 	if s == "" {
 		return Date{}, fmt.Errorf("blank date string")
-	} else if date, err := time.ParseInLocation("2006-01-02", s, time.Local); err != nil {
+	} else if date, err := time.Parse("2006-01-02", s); err != nil {
 		return Date{}, err
 	} else {
-		return Date(date), nil
+		return Date(civil(date.Year(), date.Month(), date.Day())), nil
 	}
 }
 
 // Utility function to explicitly construct a Date from year, month and day.
 func ToDate(year int, month time.Month, day int) Date {
-	date := time.Date(year, month, day, 0, 0, 0, 0, time.Local)
+	return Date(civil(year, month, day))
+}
 
-	return Date(date)
+// Returns the local time for a civil year, month and day: local midnight of that day, except in
+// time zones where a daylight saving change skips midnight on that day (e.g. America/Santiago,
+// America/Havana, Atlantic/Azores), for which it is the first instant of that day - time.Date
+// would otherwise resolve the non-existent midnight to the last hour of the previous day.
+func civil(year int, month time.Month, day int) time.Time {
+	date := time.Date(year, month, day, 0, 0, 0, 0, time.Local)
+	utc := time.Date(year, month, day, 0, 0, 0, 0, time.UTC)
+
+	for i := 0; i < 24 && date.Day() != utc.Day(); i++ {
+		date = date.Add(time.Hour)
+	}
+
+	return date
 }
 
 // Returns true if the date is the zero value.
@@ -145,10 +158,10 @@ func (d *Date) UnmarshalUT0311L0x(bytes []byte) (any, error) {
 		}
 	}
 
-	if date, err := time.ParseInLocation("20060102", decoded, time.Local); err != nil {
+	if date, err := time.Parse("20060102", decoded); err != nil {
 		return &Date{}, nil
 	} else {
-		v := Date(date)
+		v := Date(civil(date.Year(), date.Month(), date.Day()))
 
 		return &v, nil
 	}
@@ -175,12 +188,12 @@ func (d *Date) UnmarshalJSON(bytes []byte) error {
 		return nil
 	}
 
-	date, err := time.ParseInLocation("2006-01-02", s, time.Local)
+	date, err := time.Parse("2006-01-02", s)
 	if err != nil {
 		return err
 	}
 
-	*d = Date(date)
+	*d = Date(civil(date.Year(), date.Month(), date.Day()))
 
 	return nil
 }
